@@ -8,7 +8,8 @@
      F memid_is_suitable <memkind name> <arena id> <exclusive> <req id> = <0|1>
      F heap_memid_is_suitable <heap arena id> <memkind name> <arena id> <exclusive> = <0|1>
 
-   Every other line is ignored.  A disagreement prints `MISMATCH F <fn> <args> : impl=.. model=..`. *)
+   Every other line is ignored.  A disagreement prints `MISMATCH F <fn> <args> : impl=.. model=..`.
+   The op-level trace tie of the same model (mode `bind-trace`, input from harness/t_bind.c) is in ocaml/mode_bindtrace.ml. *)
 open BinNums
 open Util
 module L = Stdlib.List
